@@ -3,6 +3,7 @@
 package utreexo
 
 import (
+	"math/rand"
 	"fmt"
 	"sort"
 	"testing"
@@ -241,6 +242,60 @@ func runLightClient(res *racResult, h racHistory, mask uint64, undoDepth int, re
 	}
 }
 
+// lightHistory: a random history for the light client: the first block adds 4..16 leaves, later blocks delete
+// single leaves, sibling pairs and whole subtrees (so that survivors move up and are deleted on higher rows
+// later) and add a few.
+func lightHistory(rng *rand.Rand) racHistory {
+	if rng.Intn(3) == 0 {
+		return randomHistory(rng, 2+rng.Intn(4), 6)
+	}
+	n := 4 + rng.Intn(13)
+	h := racHistory{{Adds: n}}
+	live := map[uint64]bool{}
+	for i := 0; i < n; i++ {
+		live[uint64(i)] = true
+	}
+	for b := 0; b < 1+rng.Intn(4); b++ {
+		var blk racBlock
+		mode := rng.Intn(4)
+		for s := uint64(0); s < uint64(n); s++ {
+			if !live[s] {
+				continue
+			}
+			del := false
+			switch mode {
+			case 0:
+				del = rng.Intn(6) == 0
+			case 1:
+				del = rng.Intn(3) == 0
+			case 2:
+				del = (s/2)%3 == uint64(b%3) && rng.Intn(4) != 0 // sibling pairs
+			case 3:
+				del = (s/4)%2 == uint64(b%2) && rng.Intn(5) != 0 // subtrees
+			}
+			if del {
+				blk.Dels = append(blk.Dels, s)
+				delete(live, s)
+			}
+		}
+		blk.Adds = rng.Intn(4)
+		if len(blk.Dels) == 0 && blk.Adds == 0 {
+			blk.Adds = 1
+		}
+		for k := 0; k < blk.Adds; k++ {
+			live[uint64(n+k)] = true
+		}
+		n += blk.Adds
+		h = append(h, blk)
+	}
+	return h
+}
+
+// lightMasks: remember masks of different densities.
+func lightMasks(rng *rand.Rand) []uint64 {
+	return []uint64{rng.Uint64(), rng.Uint64() & rng.Uint64(), rng.Uint64() & rng.Uint64() & rng.Uint64(), rng.Uint64() | rng.Uint64()}
+}
+
 func TestRAC_C07(t *testing.T) {
 	res := newRacResult("C07")
 	maxLeaves, maxBlocks := 5, 3
@@ -263,7 +318,20 @@ func TestRAC_C07(t *testing.T) {
 		}
 	})
 	res.Exhaustive = true
-	res.Rule = fmt.Sprintf("every history with <= %d leaves / <= %d blocks and, for each, every subset of added leaves to remember (bit s of the mask = remember the leaf of insertion slot s), from the empty cached proof; after every block: held set, parallel positions, canonical proof hashes (specForest.CanonProof) and acceptance by Verify. distinct = (history, remember mask) pairs", maxLeaves, maxBlocks)
+	nr := 150
+	if res.thorough() {
+		nr = 3000
+	}
+	rng := rand.New(rand.NewSource(res.Seed + 707))
+	for i := 0; i < nr; i++ {
+		h := lightHistory(rng)
+		for _, mask := range lightMasks(rng) {
+			n++
+			res.seen(fmt.Sprintf("%s/%d", h.String(), mask))
+			runLightClient(res, h, mask, 0, false)
+		}
+	}
+	res.Rule = fmt.Sprintf("(+%d seeded random histories of up to 40 leaves / 2..5 blocks with 4 remember masks each) ", nr) + fmt.Sprintf("every history with <= %d leaves / <= %d blocks and, for each, every subset of added leaves to remember (bit s of the mask = remember the leaf of insertion slot s), from the empty cached proof; after every block: held set, parallel positions, canonical proof hashes (specForest.CanonProof) and acceptance by Verify. distinct = (history, remember mask) pairs", maxLeaves, maxBlocks)
 	res.Scope = fmt.Sprintf("client_runs=%d", n)
 	res.write(t)
 }
@@ -292,7 +360,22 @@ func TestRAC_C08(t *testing.T) {
 		}
 	})
 	res.Exhaustive = true
-	res.Rule = fmt.Sprintf("every history with <= %d leaves / <= %d blocks, every remember mask, every undo depth 1..len newest-first, then redo of the undone blocks; after each undo step: held set == (held before the block) minus (deleted by it), canonical proof against the pre-block state, acceptance by Verify. distinct = (history, mask, depth) triples", maxLeaves, maxBlocks)
+	nr := 150
+	if res.thorough() {
+		nr = 3000
+	}
+	rng := rand.New(rand.NewSource(res.Seed + 808))
+	for i := 0; i < nr; i++ {
+		h := lightHistory(rng)
+		for _, mask := range lightMasks(rng) {
+			for d := 1; d <= len(h) && d <= 2; d++ {
+				n++
+				res.seen(fmt.Sprintf("%s/%d/%d", h.String(), mask, d))
+				runLightClient(res, h, mask, d, true)
+			}
+		}
+	}
+	res.Rule = fmt.Sprintf("(+%d seeded random histories of up to 40 leaves / 2..5 blocks with 4 remember masks each, undo depths 1..2) ", nr) + fmt.Sprintf("every history with <= %d leaves / <= %d blocks, every remember mask, every undo depth 1..len newest-first, then redo of the undone blocks; after each undo step: held set == (held before the block) minus (deleted by it), canonical proof against the pre-block state, acceptance by Verify. distinct = (history, mask, depth) triples", maxLeaves, maxBlocks)
 	res.Scope = fmt.Sprintf("client_runs=%d", n)
 	res.write(t)
 }
